@@ -453,6 +453,38 @@ def run(ctx, prog):
     for o in sub.obs:
         o.rule = 'C09-D3'
         ctx._add(o)
+    # the count starts at 0 and compute() is refused exactly for the empty accumulator (C01-D4 on the t-test accumulator)
+    consts_, other_ = universe.binding_constants(prog, u.count)
+    tt_consts = set()
+    for f_ in prog.funcs_in(TT):
+        for t_, st_, how_ in kernels.stores(f_.node):
+            if isinstance(t_, ast.Attribute) and t_.attr == u.count and how_ == 'bind' and not isinstance(st_, ast.AugAssign):
+                tt_consts.add(st_.value.value if isinstance(st_.value, ast.Constant) else norm(st_.value))
+    ctx.check(tt_consts == {0}, 'C09-D3', f'{u.cls.key}::{u.count} initial value', f'the accumulator\'s trace count is bound to {sorted(tt_consts, key=str)} before any batch: mean and variance are taken over a wrong count',
+              'the trace count starts at 0', u.cls.mod.relpath)
+    comp_ = prog.resolve_method(u.cls, 'compute')
+    from .c15 import ceval as _ceval, Undecidable as _Und
+    for n_ in ast.walk(comp_.node):
+        if isinstance(n_, ast.Assert) and f'self.{u.count}' in norm(n_.test):
+            try:
+                acc_ = {k_: bool(_ceval(n_.test, {f'self.{u.count}': k_})) for k_ in (0, 1, 2, 5)}
+                ctx.check(acc_ == {0: False, 1: True, 2: True, 5: True}, 'C09-D3', f'{comp_.key}::refusal without traces', f'`{norm(n_.test)}` accepts compute() for counts {sorted(k_ for k_, v_ in acc_.items() if v_)} '
+                          f'out of 0, 1, 2, 5: it must refuse exactly the empty accumulator', 'compute() refused exactly when no trace was processed', comp_.where(n_))
+            except _Und as e_:
+                ctx.undecided('C09-D3', f'{comp_.key}::refusal without traces', f'guard not evaluable: {e_}', comp_.where(n_))
+    # C09-D10: the accumulators have one entry per sample: allocated with the last (sample) extent of the batch
+    ini_ = prog.resolve_method(u.cls, '_initialize')
+    if ini_ is not None:
+        bp_ = [p_ for p_ in ini_.params if p_ != 'self'][0]
+        for st_ in ast.walk(ini_.node):
+            if isinstance(st_, ast.Assign) and len(st_.targets) == 1 and self_attr(st_.targets[0]) in u.acc and isinstance(st_.value, ast.Call) and st_.value.args:
+                shp_ = st_.value.args[0]
+                shp_ = shp_.elts[0] if isinstance(shp_, (ast.Tuple, ast.List)) and len(shp_.elts) == 1 else shp_
+                shp_ = astutil.expand_locals(shp_, astutil.local_defs(ini_.node))
+                good_ = norm(shp_).replace(' ', '') in (f'{bp_}.shape[-1]', f'{bp_}.shape[1]')
+                ctx.check(good_, 'C09-D10', f'{ini_.key}::self.{self_attr(st_.targets[0])} length', f'self.{self_attr(st_.targets[0])} is allocated with `{norm(st_.value.args[0])}`, not with the number of samples '
+                          f'({bp_}.shape[-1]): the kernel indexes it by sample (out-of-bounds writes or a result of the wrong length when the batch is not square)', 'one accumulator entry per sample', ini_.where(st_))
+    ctx.rule('C09-D10', 'the accumulators are allocated with the sample extent of the batch (the kernel indexes them by sample)')
     d4(ctx, prog)
     d5(ctx, prog)
     ctx.rule('C09-D7', 'the trace count of an accumulator is incremented after the kernel call: a batch the kernel refuses (implicit exception) is not counted')
